@@ -2,7 +2,7 @@
 # Seed lab: a private copy of /repo and of /verif (harness paths rewritten) so that seeded changes can be
 # tried without touching /repo while other work is reading it.  usage: seedlab.sh sync | run <patch> <Cxx...>
 set -e
-LAB=/tmp/lab
+LAB=${LAB:-/tmp/lab}
 case "$1" in
  sync)
   mkdir -p $LAB
